@@ -333,6 +333,8 @@ class Shape:
         self.payload = kw.get('payload', 'mixed')  # none | all | mixed
         self.super_data = kw.get('super_data', False)
         self.cross_kind = kw.get('cross_kind', False)   # a guard also used as an unless-condition (K1 only: one hook, two roles)
+        self.hook_event = kw.get('hook_event', False)   # a hook named like an event of the machine (K1 only: with hooks in the
+                                                        # blanket impl rustc rejects the clash; the expansion must not care)
 
 
 def gen_forest(rnd, shape, names, snames):
@@ -437,6 +439,8 @@ def gen_wellformed(rnd, shape, idx=0):
                         hs.append(rnd.choice(hs))
                     elif level == 't' and ev_level.get(k) and rnd.random() < 0.2:
                         hs.append(rnd.choice(ev_level[k]))       # the same hook at event and at transition level
+                    elif shape.hook_event and rnd.random() < 0.2:
+                        hs.append(rnd.choice(evnames))               # a hook that shares its identifier with an event
                     elif shape.cross_kind and level == 't' and k == 'unless' and ev_level.get('guards') and rnd.random() < 0.3:
                         hs.append(rnd.choice(ev_level['guards']))  # a guard also listed as an unless-condition
                     else:
